@@ -154,6 +154,32 @@ def check_roundtrip(r, ctx):
         back = CommonRoadSolutionReader.fromstring(doc)
     compare_solution(r, back, "")
     independent_decode(r, doc)
+    if r.get("perm", 0) % 3 == 0:
+        # the file-based entry points: write_to_file / open must give what dump / fromstring give
+        import os
+        import shutil
+        import tempfile
+        d = tempfile.mkdtemp(prefix="crverif-c14-")
+        try:
+            CommonRoadSolutionWriter(sol).write_to_file(output_path=d, filename="s.xml", overwrite=True,
+                                                        pretty=r["pretty"])
+            with warnings.catch_warnings():
+                warnings.simplefilter("ignore")
+                back_f = CommonRoadSolutionReader.open(os.path.join(d, "s.xml"))
+            with open(os.path.join(d, "s.xml"), "rb") as f:
+                doc_f = f.read()
+        finally:
+            shutil.rmtree(d, ignore_errors=True)
+        compare_solution(r, back_f, "file-")
+        independent_decode(r, doc_f)
+        ctx.label("through-a-file")
+    # derived listings of the solution object itself
+    if list(sol.planning_problem_ids) != [p["pp_id"] for p in r["pps"]]:
+        raise Violation("solution-planning-problem-ids", "%r vs %r" % (sol.planning_problem_ids,
+                                                                      [p["pp_id"] for p in r["pps"]]))
+    if [t.name for t in sol.trajectory_types] != [p["kind"] for p in r["pps"]]:
+        raise Violation("solution-trajectory-types", "%r vs %r" % ([t.name for t in sol.trajectory_types],
+                                                                  [p["kind"] for p in r["pps"]]))
     r2 = gs.apply_edit(sol, r)
     if r2 is not None:
         # the same Solution object is edited after it has been written once, and written again
